@@ -371,7 +371,12 @@ def searchJs : Ty → GoVal → Option JsVal
   | .jsobj, .jsobj j => some j
   | .ptr e, .ptr v => searchJs e v
   | .struct _ (t0 :: _), .struct (f0 :: _) => searchJs t0 f0
-  | .iface, .iface τ v => searchJs τ v
+  | .iface, .iface τ v =>
+    match τ, v with
+    -- :124-125 `searchJsObject(v.$val, v.constructor)`: for an interface holding a `*js.Object` this returns the
+    -- js.Object wrapper STRUCT (`v.$val`), not `v.$val.object` as :55-57 does: an object with the one property `object`
+    | .jsobj, .jsobj j => some (.obj [asciiUnits "object"] [j])
+    | τ, v => searchJs τ v
   | _, _ => none
 
 mutual
@@ -579,11 +584,15 @@ def internalize (τ : Ty) (j : JsVal) : R GoVal :=
     match j with
     | .wrapper id => .ok (.opaque id)
     | .undef | .null => .error .cannotInternalize
+    -- `$mapArray` keeps the class of the JavaScript array it is given, so a Go array internalized from an array of
+    -- another class than `$nativeArray(elem.kind)` has a foreign backing store; `GoVal.arr` does not record that: unmodelled
     | .arr es =>
       if es.length ≠ n then .error .wrongSize
+      else if (nativeTA e).isSome then .error .unmodelled
       else do let gs ← es.mapM (internalize e); .ok (.arr gs)
     | .typed c xs =>
       if xs.length ≠ n then .error .wrongSize
+      else if nativeTA e ≠ some c then .error .unmodelled
       else do
         let gs ← xs.mapM (fun x => internalize e (.num x))
         let gs ← storeElems (some c) (some c) gs
